@@ -1,0 +1,217 @@
+//go:build verif
+
+package foreach
+
+// Contracts for the foreach (loop) step provider, read by the govc verifier (build
+// tag verif). This file contains no executable code.
+//
+// ---- field discipline (C17) ----
+//@ fields runningStep guarded_by(lock): currentStage currentState executionInputAvailable enabledInputAvailable
+//@ fields runningStep owned_by(run): currentStage
+//@ fields runningStep immutable: runID workflow lock executeInput enabledInput ctx cancel stageChangeHandler logger
+//@ fields runningStep atomic(set-only): closed
+//
+//@ pred wfstep(r *runningStep) = r != nil && r.lock != nil && r.stageChangeHandler != nil && r.logger != nil && r.workflow != nil && \
+//@    r.ctx != nil && r.cancel != nil && cancels(r.cancel, r.ctx) && r.executeInput != nil && r.enabledInput != nil && \
+//@    r.executeInput != r.enabledInput && chcap(r.executeInput) == 1 && chcap(r.enabledInput) == 1
+//
+// Outputs the foreach provider's lifecycle declares per stage.
+//@ pred foreachDeclares(stage string, out string) = (stage == "enabling" && out == "resolved") || (stage == "disabled" && out == "output") || \
+//@    (stage == "closed" && out == "result") || (stage == "outputs" && out == "success") || (stage == "failed" && out == "error")
+//@ axiom forall r *runningStep, st string, o string :: declares(step.RunningStep(r), st, o) == foreachDeclares(st, o)
+//
+//@ pure stageIdx(g string) int = ite(g == "enabling", 0, ite(g == "disabled", 1, ite(g == "execute", 2, ite(g == "outputs", 3, 0 - 1))))
+//
+// every hand-over of items carries a parallelism of at least one (the declared minimum)
+//@ chaninv runningStep.executeInput msg.parallelism >= 1
+//
+//@ lockinv runningStep.lock
+//@   inv [enabled-input-once] !enabledInputAvailable ==> chlen(enabledInput) == 0
+//@   inv [items-handed-over-once] !executionInputAvailable ==> chlen(executeInput) == 0
+//@   inv [enabled-channel-never-closed] !closed(enabledInput)
+//@   inv [items-channel-closed-only-after-close-was-requested] closed(executeInput) ==> atomicval(&self.closed)
+//
+// ---- transition helpers (run goroutine) ----
+//@ func (*runningStep).transitionStageWithOutput
+//@   opt goroutine run
+//@   requires wfstep(r) && nolocks()
+//@   requires reported(step.RunningStep(r), string(r.currentStage)) == 0 && completions(step.RunningStep(r)) == 0
+//@   requires outputID != nil ==> foreachDeclares(string(r.currentStage), *outputID) && previousStageOutput != nil
+//@   modifies r.currentStage, r.currentState, ghost reported
+//@   ensures r.currentStage == newStage
+//@   ensures reported(step.RunningStep(r), string(old(r.currentStage))) == 1
+//@   ensures forall s step.RunningStep, g string :: (s != step.RunningStep(r) || g != string(old(r.currentStage))) ==> reported(s, g) == old(reported(s, g))
+//
+//@ func (*runningStep).transitionRunningStage
+//@   opt goroutine run
+//@   requires wfstep(r) && nolocks()
+//@   requires reported(step.RunningStep(r), string(r.currentStage)) == 0 && completions(step.RunningStep(r)) == 0
+//@   modifies r.currentStage, r.currentState, ghost reported
+//@   ensures r.currentStage == newStage
+//@   ensures reported(step.RunningStep(r), string(old(r.currentStage))) == 1
+//@   ensures forall s step.RunningStep, g string :: (s != step.RunningStep(r) || g != string(old(r.currentStage))) ==> reported(s, g) == old(reported(s, g))
+//
+//@ func (*runningStep).transitionFromFailedStage
+//@   opt goroutine run
+//@   requires wfstep(r) && nolocks()
+//@   requires reported(step.RunningStep(r), string(r.currentStage)) != 1
+//@   modifies r.currentStage, r.currentState, ghost reported
+//@   ensures r.currentStage == newStage
+//@   ensures reported(step.RunningStep(r), string(old(r.currentStage))) == 2
+//@   ensures forall s step.RunningStep, g string :: (s != step.RunningStep(r) || g != string(old(r.currentStage))) ==> reported(s, g) == old(reported(s, g))
+//
+//@ func (*runningStep).completeStep
+//@   opt goroutine run
+//@   requires wfstep(r) && nolocks()
+//@   requires reported(step.RunningStep(r), string(r.currentStage)) == 0 && completions(step.RunningStep(r)) == 0
+//@   requires outputID != nil ==> foreachDeclares(string(r.currentStage), *outputID) && previousStageOutput != nil
+//@   modifies r.currentStage, r.currentState, ghost reported, ghost completions
+//@   ensures r.currentStage == currentStage
+//@   ensures reported(step.RunningStep(r), string(old(r.currentStage))) == 1 && completions(step.RunningStep(r)) == 1
+//@   ensures forall s step.RunningStep, g string :: (s != step.RunningStep(r) || g != string(old(r.currentStage))) ==> reported(s, g) == old(reported(s, g))
+//@   ensures forall s step.RunningStep :: s != step.RunningStep(r) ==> completions(s) == old(completions(s))
+//
+//@ func (*runningStep).markStageFailures
+//@   opt goroutine run
+//@   requires wfstep(r) && nolocks() && stageIdx(string(firstStage)) >= 0
+//@   requires forall g string :: stageIdx(g) >= stageIdx(string(firstStage)) ==> reported(step.RunningStep(r), g) != 1
+//@   modifies ghost reported
+//@   ensures forall g string :: stageIdx(g) >= stageIdx(string(firstStage)) ==> reported(step.RunningStep(r), g) == 2
+//@   ensures forall s step.RunningStep, g string :: (s != step.RunningStep(r) || stageIdx(g) < stageIdx(string(firstStage))) ==> reported(s, g) == old(reported(s, g))
+//
+//@ func (*runningStep).markNotClosable
+//@   opt goroutine run
+//@   requires wfstep(r) && nolocks() && reported(step.RunningStep(r), "closed") != 1
+//@   modifies ghost reported
+//@   ensures reported(step.RunningStep(r), "closed") == 2
+//@   ensures forall s step.RunningStep, g string :: (s != step.RunningStep(r) || g != "closed") ==> reported(s, g) == old(reported(s, g))
+//
+// ---- input hand-over and closing (any goroutine) ----
+//@ func (*runningStep).provideEnablingInput
+//@   requires wfstep(r) && held(r.lock) && lockinv(r)
+//@   ensures [second-hand-over-refused] old(r.enabledInputAvailable) ==> result != nil && !sentnow(r.enabledInput)
+//@   ensures [first-hand-over-recorded] !old(r.enabledInputAvailable) ==> result == nil && r.enabledInputAvailable && sentnow(r.enabledInput)
+//@   ensures [enabled-iff-absent-or-true] !old(r.enabledInputAvailable) ==> lastsent(r.enabledInput) == (input["enabled"] == nil || input["enabled"] == any(true))
+//@   ensures [lock-invariant-kept] lockinv(r)
+//
+//@ func (*runningStep).ProvideStageInput
+//@   requires wfstep(r) && nolocks()
+//@   ensures [items-handed-over-in-order] sentnow(r.executeInput) ==> stage == "execute" && result == nil
+//
+//@ func (*runningStep).State
+//@   requires wfstep(r) && nolocks()
+//@ func (*runningStep).CurrentStage
+//@   requires wfstep(r) && nolocks()
+//
+//@ func (*runningStep).Close
+//@   requires wfstep(r) && nolocks()
+//@   ensures [waits-for-the-step-goroutines] waited(&r.wg)
+//@   ensures result == nil
+//@ func (*runningStep).ForceClose
+//@   requires wfstep(r) && nolocks()
+//@   ensures [waits-for-the-step-goroutines] waited(&r.wg)
+//@   ensures [always-nil] result == nil
+//
+//@ func (*runnableStep).Start
+//@   requires r != nil && r.workflow != nil && r.logger != nil && stageChangeHandler != nil
+//@   ensures [step-or-error] (result1 == nil) != (result == nil)
+//@   ensures result1 == nil ==> typeis(result, *runningStep) && wfstep(result.(*runningStep)) && fresh(result.(*runningStep))
+//
+// ---- the loop itself (C13) ----
+//@ func (*runningStep).enableStage
+//@   opt goroutine run
+//@   requires wfstep(r) && nolocks() && reported(step.RunningStep(r), "disabled") != 1
+//@   modifies ghost reported
+//@   ensures result1 ==> ctxdone(r.ctx)
+//@   ensures !result1 && result ==> reported(step.RunningStep(r), "disabled") == 2
+//@   ensures forall s step.RunningStep, g string :: (s != step.RunningStep(r) || g != "disabled") ==> reported(s, g) == old(reported(s, g))
+//@   ensures (result1 || !result) ==> reported(step.RunningStep(r), "disabled") == old(reported(step.RunningStep(r), "disabled"))
+//
+//@ func (*runningStep).executeSubWorkflows
+//@   opt goroutine run
+//@   requires wfstep(r) && nolocks() && input.parallelism >= 1
+//@   ensures [one-result-slot-per-item-in-item-order] len(result) == len(input.data)
+//@   ensures result1 != nil
+//@   site makechan#1 assert [semaphore-size-is-the-parallelism] input.parallelism >= 0
+//@   loop 1 invariant len(itemOutputs) == len(input.data) && itemErrors != nil && tokens(wg) == len(input.data) - (rangeidx + 1) && -1 <= rangeidx
+//
+//@ func (*runningStep).executeSubWorkflows$1
+//@   opt goroutine item
+//@   opt token wg
+//@   requires wfstep(r) && nolocks() && sem != nil && !closed(sem) && wg != nil && itemErrors != nil && allocated(itemErrors) && allocated(itemOutputs) && 0 <= i && i < len(itemOutputs) && chcap(sem) >= 1
+//@   site call Execute#1 assert [runs-only-with-a-parallelism-permit] sentnow(sem)
+//@   site call Execute#1 assert [runs-with-its-own-item] true
+//@   ensures [item-given-to-the-subworkflow] called(Execute, 1) ==> callarg(Execute, 1, 1) == input
+//@   ensures [non-success-output-is-a-failed-item] called(Execute, 1) && callres(Execute, 1, 2) == nil && callres(Execute, 1, 0) != "success" ==> indom(itemErrors, i)
+//@   ensures [error-is-a-failed-item] called(Execute, 1) && callres(Execute, 1, 2) != nil ==> indom(itemErrors, i)
+//@   ensures [aborted-item-is-a-failed-item] !called(Execute, 1) ==> indom(itemErrors, i)
+//@   ensures [success-stores-the-result-at-its-index] called(Execute, 1) && callres(Execute, 1, 2) == nil && callres(Execute, 1, 0) == "success" ==> itemOutputs[i] == callres(Execute, 1, 1)
+//@   ensures [touches-only-its-own-index] forall j int :: 0 <= j && j < len(itemOutputs) && j != i ==> itemOutputs[j] == old(itemOutputs[j])
+//@   ensures [touches-only-its-own-error-entry] forall j int :: j != i ==> indom(itemErrors, j) == old(indom(itemErrors, j)) && itemErrors[j] == old(itemErrors[j])
+//
+//@ func (*runningStep).processInput
+//@   opt goroutine run
+//@   requires wfstep(r) && nolocks() && input.parallelism >= 1 && r.currentStage == StageIDExecute && completions(step.RunningStep(r)) == 0
+//@   requires reported(step.RunningStep(r), "execute") == 0 && reported(step.RunningStep(r), "outputs") == 0 && reported(step.RunningStep(r), "failed") == 0
+//@   ensures [exactly-one-completion] completions(step.RunningStep(r)) == 1 && reported(step.RunningStep(r), "execute") == 1
+//@   ensures [all-succeeded-lists-results-in-item-order] len(callres(executeSubWorkflows, 1, 1)) == 0 ==> \
+//@       callarg(OnStepComplete, 1, 1) == "outputs" && *callarg(OnStepComplete, 1, 2) == "success" && \
+//@       typeis(*callarg(OnStepComplete, 1, 3), map[string]any) && \
+//@       (*callarg(OnStepComplete, 1, 3)).(map[string]any)["data"] == any(callres(executeSubWorkflows, 1, 0)) && \
+//@       reported(step.RunningStep(r), "failed") == 2 && reported(step.RunningStep(r), "outputs") == 1
+//@   ensures [any-failure-reports-the-failed-output] len(callres(executeSubWorkflows, 1, 1)) > 0 ==> \
+//@       callarg(OnStepComplete, 1, 1) == "failed" && *callarg(OnStepComplete, 1, 2) == "error" && \
+//@       typeis(*callarg(OnStepComplete, 1, 3), map[string]any) && \
+//@       (*callarg(OnStepComplete, 1, 3)).(map[string]any)["errors"] == any(callres(executeSubWorkflows, 1, 1)) && \
+//@       reported(step.RunningStep(r), "outputs") == 2 && reported(step.RunningStep(r), "failed") == 1
+//@   ensures [failure-data-is-an-index-map] len(callres(executeSubWorkflows, 1, 1)) > 0 ==> \
+//@       typeis((*callarg(OnStepComplete, 1, 3)).(map[string]any)["data"], map[int]any)
+//@   ensures [failure-keeps-exactly-the-other-results] len(callres(executeSubWorkflows, 1, 1)) > 0 ==> \
+//@       (forall k int :: indom((*callarg(OnStepComplete, 1, 3)).(map[string]any)["data"].(map[int]any), k) <==> \
+//@            (0 <= k && k < len(callres(executeSubWorkflows, 1, 0)) && callres(executeSubWorkflows, 1, 0)[k] != nil))
+//@   ensures [failure-keeps-results-at-their-index] len(callres(executeSubWorkflows, 1, 1)) > 0 ==> \
+//@       (forall k int :: 0 <= k && k < len(callres(executeSubWorkflows, 1, 0)) && callres(executeSubWorkflows, 1, 0)[k] != nil ==> \
+//@            (*callarg(OnStepComplete, 1, 3)).(map[string]any)["data"].(map[int]any)[k] == callres(executeSubWorkflows, 1, 0)[k])
+//@   loop 1 invariant forall k int :: indom(dataMap, k) <==> (0 <= k && k <= rangeidx && outputs[k] != nil)
+//@   loop 1 invariant forall k int :: 0 <= k && k <= rangeidx && outputs[k] != nil ==> dataMap[k] == outputs[k]
+//@   loop 1 invariant -1 <= rangeidx && rangeidx < len(outputs) && dataMap != nil && allocated(dataMap)
+//
+//@ func (*runningStep).runOnInput
+//@   opt goroutine run
+//@   requires wfstep(r) && nolocks() && r.currentStage == StageIDExecute && completions(step.RunningStep(r)) == 0
+//@   requires reported(step.RunningStep(r), "execute") == 0 && reported(step.RunningStep(r), "outputs") == 0 && reported(step.RunningStep(r), "failed") == 0
+//@   ensures completions(step.RunningStep(r)) <= 1
+//
+//@ func (*runningStep).closedEarly
+//@   opt goroutine run
+//@   requires wfstep(r) && nolocks() && completions(step.RunningStep(r)) == 0 && stageIdx(string(stageToMarkUnresolvable)) >= 0
+//@   requires r.currentStage != StageIDClosed && reported(step.RunningStep(r), "closed") == 0
+//@   requires priorStageFailed ==> reported(step.RunningStep(r), string(r.currentStage)) != 1
+//@   requires !priorStageFailed ==> reported(step.RunningStep(r), string(r.currentStage)) == 0 && stageIdx(string(r.currentStage)) < stageIdx(string(stageToMarkUnresolvable))
+//@   requires forall g string :: stageIdx(g) >= stageIdx(string(stageToMarkUnresolvable)) ==> reported(step.RunningStep(r), g) != 1
+//@   ensures completions(step.RunningStep(r)) == 1 && reported(step.RunningStep(r), "closed") == 1
+//
+//@ func (*runningStep).transitionToDisabled
+//@   opt goroutine run
+//@   requires wfstep(r) && nolocks() && r.currentStage == StageIDEnabling && completions(step.RunningStep(r)) == 0
+//@   requires forall g string :: reported(step.RunningStep(r), g) == 0
+//@   ensures completions(step.RunningStep(r)) == 1 && reported(step.RunningStep(r), "disabled") == 1 && reported(step.RunningStep(r), "enabling") == 1
+//
+//@ func (*runningStep).run
+//@   opt goroutine run
+//@   opt token &r.wg
+//@   requires wfstep(r) && nolocks() && r.currentStage == StageIDEnabling && completions(step.RunningStep(r)) == 0
+//@   requires forall g string :: reported(step.RunningStep(r), g) == 0
+//@   ensures [at-most-one-completion] completions(step.RunningStep(r)) <= 1
+//
+//@ func (*forEachProvider).LoadSchema
+//@   requires l != nil && l.logger != nil && l.yamlParserFactory != nil && l.executorFactory != nil
+//@   requires [inputs-match-provider-schema] typeis(inputs["workflow"], string)
+//@   ensures [step-or-error] (result1 == nil) != (result == nil)
+//
+// The factories injected into the provider (engine: workflowFactory.createYAMLParser / createWorkflow,
+// verified against the same clauses in package engine).
+//@ func field forEachProvider.yamlParserFactory()
+//@   ensures (result1 == nil) != (result == nil)
+//@ func field forEachProvider.executorFactory(logger)
+//@   ensures (result1 == nil) != (result == nil)
